@@ -100,11 +100,11 @@ package ice
 //@   site call setGatheringState#2 assert completes-with-the-same-cycle-context: arg1 == ctx && arg2 == GatheringStateComplete
 
 //@ func (*Agent).Restart$1
-//@   props C18 C06 C02 C04
+//@   props C18 C06 C02 C04 C03
 //@   site call updateConnectionState#1 assert C04 restart-returns-to-checking-unless-new: arg1 == ConnectionStateChecking && a.connectionState != ConnectionStateNew && a.getSelectedPair() == nil
 //@   site call gatherCandidateCancel#1 assert cancels-the-running-cycle-first: true
 //@   ensures C18 back-to-new: a.gatheringState == GatheringStateNew
-//@   ensures C06 C02 no-pairs-or-transactions-of-the-old-generation: len(a.checklist) == 0 && len(a.pairsByID) == 0 && len(a.pendingBindingRequests) == 0
+//@   ensures C06 C02 C03 no-pairs-or-transactions-of-the-old-generation: len(a.checklist) == 0 && len(a.pairsByID) == 0 && len(a.pendingBindingRequests) == 0
 //@   ensures C06 no-selection-of-the-old-generation: a.getSelectedPair() == nil
 //@   ensures C02 fresh-local-credentials-and-no-remote-ones: a.localUfrag == ufrag && a.localPwd == pwd && a.remoteUfrag == "" && a.remotePwd == ""
 
